@@ -5,6 +5,16 @@ V = os.path.dirname(os.path.dirname(os.path.abspath(__file__)))
 props = [json.loads(l) for l in open(os.path.join(V, 'properties.jsonl'))]
 MC = 'model_checking'
 CLAIMS = {
+ 'C01': dict(
+    technique='TLA+ specification of the session (Swarm.tla: manager, connection tasks, command/reply/broadcast channels, piece store) model-checked by TLC on a bounded instance; full-stack executions of the real Session/PeerHandler/Connection recorded through cfg(rdest_verif) hooks and validated event by event against the specification by TLC (SwarmTrace.tla); wire/disk oracles on the same runs',
+    text='Every interleaving of the bounded model satisfies owned/served/advertised => stored and that a corrupt assembly is never stored; adversarial and honest full-stack runs (corrupt, duplicated, odd, unrequested blocks, disconnects, several peers) are accepted by the spec with the spec store bound to the scanned directory after every step, and every piece file on disk must hash to its piece.',
+    note='Trusted: TLC, the trace re-encoding in lib/swarm_trace.py (renaming/indexing only), in-memory duplex streams + current_thread runtime + paused clock instead of TCP/multi-thread runtime, SHA-1. Hook events are cross-checked against the bytes observed at the remote end. Design-level exploration is bounded (2-3 peers, 1-3 pieces, fuel-limited adversarial remotes).',
+    ref='DESIGN.md 6/C01, 5.1'),
+ 'C02': dict(
+    technique='TLA+ specification of the session (Swarm.tla: manager, connection tasks, command/reply/broadcast channels, piece store) model-checked by TLC on a bounded instance; full-stack executions of the real Session/PeerHandler/Connection recorded through cfg(rdest_verif) hooks and validated event by event against the specification by TLC (SwarmTrace.tla); wire/disk oracles on the same runs',
+    text='Honest swarms with random geometry, piece distribution, segmentation, incoming/outgoing peers and non-essential peers leaving must finish with byte-identical files and a live session in bounded virtual time; all traces validated. Liveness on the model is limited to the bounded safety exploration (see DESIGN.md limits).',
+    note='Trusted: TLC, the trace re-encoding in lib/swarm_trace.py (renaming/indexing only), in-memory duplex streams + current_thread runtime + paused clock instead of TCP/multi-thread runtime, SHA-1. Hook events are cross-checked against the bytes observed at the remote end. Design-level exploration is bounded (2-3 peers, 1-3 pieces, fuel-limited adversarial remotes).',
+    ref='DESIGN.md 6/C02'),
  'C03': dict(
     technique='TLA+ geometry and extractor model (Geometry.tla) checked by TLC for all small geometries; each geometry replayed into Metainfo::piece_length and the real Extractor',
     text='TLC enumerates every piece length 1..4 x every list of up to 4 file lengths (incl. 0, several files per piece) plus real-size geometries around 16 KiB/256 KiB, checks on the model that piece lengths partition the content, that the block tiling is exact and that an element-wise extractor model reproduces every file, and hands piece lengths/offsets to the replay, where the real extractor output is compared byte-exactly (length + SHA-1) on position-dependent content.',
@@ -30,6 +40,41 @@ CLAIMS = {
     text='TLC enumerates messages of all eleven kinds over boundary values of every u32 field, payload lengths around 16 KiB and the frame limit, hash/id byte classes, and all bit vectors up to 10 pieces (walking patterns up to 65), computes the BEP3 bytes, and checks the round trip on the model; the real serializer must emit exactly these bytes, the real parser must return the same message and consume exactly its length (also with trailing bytes).',
     note='Trusted: TLC, Wire.tla, payload expansion in the harness. Values between boundary classes are sampled.',
     ref='DESIGN.md 6/C07, 5.3'),
+ 'C08': dict(
+    technique='TLA+ specification of the session (Swarm.tla: manager, connection tasks, command/reply/broadcast channels, piece store) model-checked by TLC on a bounded instance; full-stack executions of the real Session/PeerHandler/Connection recorded through cfg(rdest_verif) hooks and validated event by event against the specification by TLC (SwarmTrace.tla); wire/disk oracles on the same runs',
+    text='Model: nothing but our handshake/keep-alives before a valid remote handshake on incoming connections, no piece data without handshake on any connection. Implementation: every handshake kind at any point of a history on incoming and outgoing connections with a seeded store; wire-level silence and closing after an invalid handshake.',
+    note='Trusted: TLC, the trace re-encoding in lib/swarm_trace.py (renaming/indexing only), in-memory duplex streams + current_thread runtime + paused clock instead of TCP/multi-thread runtime, SHA-1. Hook events are cross-checked against the bytes observed at the remote end. Design-level exploration is bounded (2-3 peers, 1-3 pieces, fuel-limited adversarial remotes).',
+    ref='DESIGN.md 6/C08'),
+ 'C09': dict(
+    technique='TLA+ specification of the session (Swarm.tla: manager, connection tasks, command/reply/broadcast channels, piece store) model-checked by TLC on a bounded instance; full-stack executions of the real Session/PeerHandler/Connection recorded through cfg(rdest_verif) hooks and validated event by event against the specification by TLC (SwarmTrace.tla); wire/disk oracles on the same runs',
+    text='Model: piece data only while unchoked (wire or manager view), loaded piece dropped on own Choke. Implementation: request menus incl. wrapping ranges, unknown and not-owned indices before/after a rotation chokes the requester; every Piece frame must answer an outstanding request with the stored bytes.',
+    note='Trusted: TLC, the trace re-encoding in lib/swarm_trace.py (renaming/indexing only), in-memory duplex streams + current_thread runtime + paused clock instead of TCP/multi-thread runtime, SHA-1. Hook events are cross-checked against the bytes observed at the remote end. Design-level exploration is bounded (2-3 peers, 1-3 pieces, fuel-limited adversarial remotes).',
+    ref='DESIGN.md 6/C09'),
+ 'C10': dict(
+    technique='TLA+ specification of the session (Swarm.tla: manager, connection tasks, command/reply/broadcast channels, piece store) model-checked by TLC on a bounded instance; full-stack executions of the real Session/PeerHandler/Connection recorded through cfg(rdest_verif) hooks and validated event by event against the specification by TLC (SwarmTrace.tla); wire/disk oracles on the same runs',
+    text='Model: RxShape/RequestsTile on every step for 1-3 block pieces. Implementation: logged requested/left queues after every task step must be the ones the spec produces (blocks in order, once, next request after every accepted block, completion exactly at the last outstanding block); wire requests must be proper blocks.',
+    note='Trusted: TLC, the trace re-encoding in lib/swarm_trace.py (renaming/indexing only), in-memory duplex streams + current_thread runtime + paused clock instead of TCP/multi-thread runtime, SHA-1. Hook events are cross-checked against the bytes observed at the remote end. Design-level exploration is bounded (2-3 peers, 1-3 pieces, fuel-limited adversarial remotes).',
+    ref='DESIGN.md 6/C10'),
+ 'C11': dict(
+    technique='TLA+ specification of the session (Swarm.tla: manager, connection tasks, command/reply/broadcast channels, piece store) model-checked by TLC on a bounded instance; full-stack executions of the real Session/PeerHandler/Connection recorded through cfg(rdest_verif) hooks and validated event by event against the specification by TLC (SwarmTrace.tla); wire/disk oracles on the same runs',
+    text='Model: ghost sequences due/ann prove in-order, loss-free announcement (AnnouncedInOrder) incl. deferral while choked; bitfield subset of store. Implementation: bitfield on the wire must equal the stored set at that moment, Have only after store, deferred Haves flushed at Unchoke in completion order.',
+    note='Trusted: TLC, the trace re-encoding in lib/swarm_trace.py (renaming/indexing only), in-memory duplex streams + current_thread runtime + paused clock instead of TCP/multi-thread runtime, SHA-1. Hook events are cross-checked against the bytes observed at the remote end. Design-level exploration is bounded (2-3 peers, 1-3 pieces, fuel-limited adversarial remotes).',
+    ref='DESIGN.md 6/C11'),
+ 'C12': dict(
+    technique='TLA+ specification of the session (Swarm.tla: manager, connection tasks, command/reply/broadcast channels, piece store) model-checked by TLC on a bounded instance; full-stack executions of the real Session/PeerHandler/Connection recorded through cfg(rdest_verif) hooks and validated event by event against the specification by TLC (SwarmTrace.tla); wire/disk oracles on the same runs',
+    text='Model: HaveStable, ReservedBacked, AskOnlyAdvertisedAndLacked, NoPanic over all interleavings of adversarial peers. Implementation: the whole manager state after every command must equal the state the spec action produces; invariants evaluated in every observed state.',
+    note='Trusted: TLC, the trace re-encoding in lib/swarm_trace.py (renaming/indexing only), in-memory duplex streams + current_thread runtime + paused clock instead of TCP/multi-thread runtime, SHA-1. Hook events are cross-checked against the bytes observed at the remote end. Design-level exploration is bounded (2-3 peers, 1-3 pieces, fuel-limited adversarial remotes).',
+    ref='DESIGN.md 6/C12'),
+ 'C13': dict(
+    technique='TLA+ specification of the session (Swarm.tla: manager, connection tasks, command/reply/broadcast channels, piece store) model-checked by TLC on a bounded instance; full-stack executions of the real Session/PeerHandler/Connection recorded through cfg(rdest_verif) hooks and validated event by event against the specification by TLC (SwarmTrace.tla); wire/disk oracles on the same runs',
+    text='PickSet transcribes the statement (candidates, rarest, end game, none iff no candidate; PickSound checks the clauses separately); every logged choice of the real choose_piece_index must be in PickSet of the logged pre-state, incl. 12-piece torrents on both sides of END_GAME_LIMIT.',
+    note='Trusted: TLC, the trace re-encoding in lib/swarm_trace.py (renaming/indexing only), in-memory duplex streams + current_thread runtime + paused clock instead of TCP/multi-thread runtime, SHA-1. Hook events are cross-checked against the bytes observed at the remote end. Design-level exploration is bounded (2-3 peers, 1-3 pieces, fuel-limited adversarial remotes).',
+    ref='DESIGN.md 6/C13'),
+ 'C14': dict(
+    technique='TLA+ specification of the session (Swarm.tla: manager, connection tasks, command/reply/broadcast channels, piece store) model-checked by TLC on a bounded instance; full-stack executions of the real Session/PeerHandler/Connection recorded through cfg(rdest_verif) hooks and validated event by event against the specification by TLC (SwarmTrace.tla); wire/disk oracles on the same runs',
+    text='Model: SlotBound in every state, RotationPolicy on every executed rotation, ViewAgreement at quiescent states (TLC found the reply/broadcast race fixed in e10dd91). Implementation: up to 14 peers against the real limits with injected rate vectors, interest flips, rotations, and the timer/command race reproduced with tokio::time::advance.',
+    note='Trusted: TLC, the trace re-encoding in lib/swarm_trace.py (renaming/indexing only), in-memory duplex streams + current_thread runtime + paused clock instead of TCP/multi-thread runtime, SHA-1. Hook events are cross-checked against the bytes observed at the remote end. Design-level exploration is bounded (2-3 peers, 1-3 pieces, fuel-limited adversarial remotes).',
+    ref='DESIGN.md 6/C14'),
  'C15': dict(
     technique='TLA+ canonical encoder Enc (Bencode.tla) and value generator (BValueGen.tla) enumerated by TLC; cases replayed into BEncoder/BDecoder; recorded encoder runs validated by TLC (EncTrace.tla)',
     text='TLC enumerates all value trees up to a token bound over boundary leaves (i64 min/max, binary and delimiter-like strings, prefix keys) together with the canonical encoding computed by the TLA+ encoder; BEncoder must produce exactly these bytes and BDecoder must return the value; every canonical accepted document of the recogniser must re-encode to itself; random deep trees encoded by rdest are validated by TLC. Bounded-exhaustive model-based testing against the TLA+ reference.',
@@ -50,6 +95,16 @@ CLAIMS = {
     text='TLC enumerates hash vectors over byte classes (every class at first/middle/last position, all-same, alternating with %) x announce-URL shapes (with/without query, percent-encoded parameter, trailing ?) x total lengths and checks serialisation round trip and URL safety on the model; the real tracker client sends each request over loopback TCP, the captured request line is percent-decoded by the harness and compared with the abstract request (path, own parameters kept, exactly one info_hash = the 20 bytes, peer_id, port, left). All 256 byte values are covered at three positions in the thorough tier.',
     note='Trusted: TLC, loopback TCP, the harness percent-decoder, hook Metainfo::verif_set_info_hash to choose the hash.',
     ref='DESIGN.md 6/C18, 5.7'),
+ 'C19': dict(
+    technique='TLA+ reply document model (TrackerDoc.tla) enumerated by TLC and replayed into TrackerResp::from_bencode; TLA+ model of manager x tracker task x bounded channel x join (TrackerLoop.tla) checked for liveness under fairness; the real session run against a scripted tracker transport and validated against Swarm.tla',
+    text='Reply parsing: every reply document of the variant menus with the reading computed by TLC (failure wins, listed well-formed peers in order, malformed entries skipped), plus mutated replies for totality. Fault tolerance: TrackerLoop.tla proves EventuallyContacted, PeersServed and NeverStuck for the repaired join placement (and reports the violation for the code as found); the real session is driven through runs of 0..200 failures of every kind around the channel capacity while a connected peer keeps sending commands; listed peers must be contacted within |failures| s + 5 s of virtual time and the commands handled within 100 ms.',
+    note='Trusted: TLC, the scripted transport at the reqwest boundary (hook H3), virtual time. Channel capacity scaled to 2-3 in the model.',
+    ref='DESIGN.md 6/C19, 5.7'),
+ 'C20': dict(
+    technique='TLA+ specification of the session (Swarm.tla: manager, connection tasks, command/reply/broadcast channels, piece store) model-checked by TLC on a bounded instance; full-stack executions of the real Session/PeerHandler/Connection recorded through cfg(rdest_verif) hooks and validated event by event against the specification by TLC (SwarmTrace.tla); wire/disk oracles on the same runs',
+    text='Model: keep-alive counter, timeout exit and release. Implementation in virtual time: silence patterns around the 120 s boundaries; emission instants of keep-alives, time of the timeout close (2-3 intervals after the last non-keep-alive message), never for live connections, peer forgotten afterwards.',
+    note='Trusted: TLC, the trace re-encoding in lib/swarm_trace.py (renaming/indexing only), in-memory duplex streams + current_thread runtime + paused clock instead of TCP/multi-thread runtime, SHA-1. Hook events are cross-checked against the bytes observed at the remote end. Design-level exploration is bounded (2-3 peers, 1-3 pieces, fuel-limited adversarial remotes).',
+    ref='DESIGN.md 6/C20'),
 }
 hooks = subprocess.check_output(['git', '-C', '/repo', 'log', '--format=%h %s', 'e8e0820..HEAD'], text=True).strip().split('\n')
 hook_commits = [l.split()[0] for l in hooks if ' verif hooks:' in ' ' + l]
